@@ -32,7 +32,7 @@ const PIECES: [Piece; 8] = [
     Piece::Esc("v"),
 ];
 const SPREADS: [&str; 3] = ["v", "w", "u"];
-const VSIGMA: [&str; 12] = ["a", " ", "\"", "\\", "#", "$", "{", "}", "%", "\n", "=", "é"];
+const VSIGMA: [&str; 15] = ["a", " ", "\"", "\\", "#", "$", "{", "}", "%", "\n", "=", "é", "\t", "\r", "\u{a0}"];
 const VSPECIAL: [&str; 9] = ["${w}", "%{w}", "\\${w}", "${v}", "a  b", " a", "a ", "  ", "a b c"];
 const WVALUES: [&str; 8] = ["W", "", "p q", "${v}", "%{v}", "\"x y\"", "#", "\\"];
 
@@ -145,8 +145,8 @@ impl Rig {
 
 pub fn bounds(tier: Tier) -> Value {
     match tier {
-        Tier::Quick => json!({"template_pieces": 3, "value_len": 2, "value_alphabet": 12, "w_values": 8, "positions": 3}),
-        Tier::Thorough => json!({"template_pieces": 3, "value_len": 4, "value_alphabet": 12, "w_values": 8, "positions": 3}),
+        Tier::Quick => json!({"template_pieces": 3, "value_len": 2, "value_alphabet": 15, "w_values": 8, "positions": 3}),
+        Tier::Thorough => json!({"template_pieces": 3, "value_len": 4, "value_alphabet": 15, "w_values": 8, "positions": 3}),
     }
 }
 
@@ -357,7 +357,7 @@ pub fn crash_sig(_case: &Value, kind: &str) -> String {
     kind.to_string()
 }
 
-pub const RULE: &str = "every template of 1..3 pieces from {a, 'b c', e-acute, ${v}, ${w}, ${u} (undefined), ${a.b}, \\${v}} and the whole-argument forms %{v} %{w} %{u}, in three argument positions (alone, first of two, last of three after a spread), x every value of v (undefined, every string up to the length bound over {a SP \" \\ # $ { } % LF = e-acute}, 9 special values such as '${w}' and '  ') x 8 values of w (only where the argument list mentions them); bound by runner::run_instruction and observed by a capture command; a second family writes the same templates as script text (plain and quoted) and runs them through run_script. Oracle: one-pass reference substitution; spread = space-separated non-empty words. Non-trivial: the argument list mentions v or w. states = distinct (received count, position, kind) classes; transitions = real bindings";
+pub const RULE: &str = "every template of 1..3 pieces from {a, 'b c', e-acute, ${v}, ${w}, ${u} (undefined), ${a.b}, \\${v}} and the whole-argument forms %{v} %{w} %{u}, in three argument positions (alone, first of two, last of three after a spread), x every value of v (undefined, every string up to the length bound over {a SP \" \\ # $ { } % LF = e-acute TAB CR NBSP}, 9 special values such as '${w}' and '  ') x 8 values of w (only where the argument list mentions them); bound by runner::run_instruction and observed by a capture command; a second family writes the same templates as script text (plain and quoted) and runs them through run_script. Oracle: one-pass reference substitution; spread = space-separated non-empty words. Non-trivial: the argument list mentions v or w. states = distinct (received count, position, kind) classes; transitions = real bindings";
 pub const ASSUMPTIONS: &[&str] = &["spread values containing a double quote or '#' are only checked for 'no panic' (their grouping is pinned by the repository's own tests, not by the statement)", "arguments that mix text with %{..} are outside the property's template domain"];
 pub const EXHAUSTIVE: bool = true;
 pub const WALL_CAP_S: (u64, u64) = (50, 1500);
